@@ -49,9 +49,10 @@ func c06Both32(b []byte, v uint32) bool {
 	return vp.IteU8(le, 1, 0)&vp.IteU8(be, 1, 0) == 1
 }
 
-// c06CheckNM: NM record(s) for name raw[:n] at the start of b (ECMA/RRIP 4.1.4: "NM", length,
+// c06CheckNM: NM record(s) for name raw[:n] at the start of b (RRIP 4.1.4: "NM", length,
 // version 1, flags, name; names longer than 249 bytes continue in a second record with the
-// CONTINUE flag set in the first). Returns the number of bytes the records occupy.
+// CONTINUE flag set in the first). The name bytes are compared at an arbitrary position j < n
+// (one solver variable stands for every position).
 func c06CheckNM(b []byte, raw []byte, n, N int) {
 	first := vp.IteInt(n > 249, 249, n)
 	vp.Assert(b[0] == 'N', "NM signature")
@@ -59,11 +60,12 @@ func c06CheckNM(b []byte, raw []byte, n, N int) {
 	vp.Assert(int(b[2]) == 5+first, "NM length")
 	vp.Assert(b[3] == 1, "NM version")
 	vp.Assert(b[4] == vp.IteU8(n > 249, 1, 0), "NM flags: CONTINUE only when the name goes on")
-	var diff byte
-	for i := 0; i < N && i < 249; i++ {
-		diff |= vp.IteU8(i < n, b[vp.IteInt(i < n, 5+i, 0)]^raw[i], 0)
+	j := vp.Int("probe")
+	vp.Assume(j >= 0)
+	vp.Assume(j < n)
+	if j < 249 {
+		vp.Assert(b[5+j] == raw[j], "NM name bytes")
 	}
-	vp.Assert(diff == 0, "NM name bytes")
 	if n > 249 {
 		c := b[254:]
 		vp.Assert(c[0] == 'N', "second NM signature")
@@ -71,11 +73,9 @@ func c06CheckNM(b []byte, raw []byte, n, N int) {
 		vp.Assert(int(c[2]) == 5+n-249, "second NM length")
 		vp.Assert(c[3] == 1, "second NM version")
 		vp.Assert(c[4] == 0, "second NM flags")
-		var diff2 byte
-		for i := 249; i < N; i++ {
-			diff2 |= vp.IteU8(i < n, c[vp.IteInt(i < n, 5+i-249, 0)]^raw[i], 0)
+		if j >= 249 {
+			vp.Assert(c[5+j-249] == raw[j], "second NM name bytes")
 		}
-		vp.Assert(diff2 == 0, "second NM name bytes")
 	}
 }
 
@@ -200,3 +200,35 @@ func VP_C06_rr_decode_132() { c06RRDecode(132) }
 func VP_C06_rr_decode_249() { c06RRDecode(249) }
 func VP_C06_rr_decode_250() { c06RRDecode(250) }
 func VP_C06_rr_decode_255() { c06RRDecode(255) }
+
+// VP_C06_rr_entry_ce_room: an entry whose NM record still fits but whose next record (here the
+// SL record of a symbolic link with a 100-byte target; the same happens with the RE/PL/CL
+// records of relocated directories) does not: the CE record that announces the continuation
+// area must itself fit, i.e. the directory record stays within 254 bytes and LEN_DR is its length.
+func VP_C06_rr_entry_ce_room() {
+	N := 131
+	vp.Unwind(N + 120)
+	vp.AllocCap(N + 400)
+	fsm := c06RRFS()
+	fi, _, n := c06RRFile("f", N)
+	fi.mode = os.ModeSymlink | 0o777
+	fi.size = 0
+	fi.linkTarget = "tttttttttttttttttttttttttttttttttttttttttttttttttttttttttttttttttttttttttttttttttttttttttttttttttttt"
+	de, err := fi.toDirectoryEntry(fsm, false, false)
+	vp.Assert(err == nil, "entry built")
+	recs, err := de.toBytes(false, []uint32{30, 31, 32})
+	vp.Assert(err == nil, "entry encoded")
+	b := recs[0]
+	// KF-C06-7: dirEntryExtensionsToBytes checks only whether the next record fits, not whether
+	// the 28-byte CE record that replaces it fits: the record grows beyond 254 bytes and LEN_DR
+	// wraps modulo 256
+	vp.AssertUnless("KF-C06-7", n > 103, len(b) <= 254, "directory record is at most 254 bytes")
+	vp.AssertUnless("KF-C06-7", n > 103, int(b[0]) == len(b), "LEN_DR equals the record length")
+	if n <= 24 {
+		vp.Assert(len(recs) == 1, "everything fits: no continuation area")
+		vp.Cover("symlink record without continuation")
+	} else {
+		vp.Assert(len(recs) == 2, "one continuation area")
+		vp.Cover("symlink record with continuation")
+	}
+}
